@@ -1,6 +1,6 @@
 (* C11/Examples.v — non-vacuity: a concrete instance of the external functions
    satisfying every assumption, canonical addresses, and worked examples. *)
-From XV Require Import lib.Bytes gen.Jid C11.Model C11.Proofs.
+From XV Require Import lib.Bytes gen.Jid C11.Model C11.Proofs C11.ProofsHeap.
 
 (* the assumptions [ext_ok] are satisfiable *)
 Example ex_ext_ok : ext_ok toy.
@@ -71,4 +71,54 @@ Example ex_chain :
 Proof.
   exists (new_unsafe [] (str "example.com") []), (new_unsafe (str "juliet") (str "example.com") []).
   vm_compute. repeat split.
+Qed.
+
+(* ---- histories over the heap of backing arrays ---- *)
+
+(* the history of seeded change C11-m6 on the model of the code as it is: the
+   bare value shares the array of the full one (same array, nothing allocated),
+   and both WithResource results leave every earlier value alone *)
+Definition demo_prog : list hop :=
+  [HNew (str "juliet") (str "example.com") (str "balcony"); HBare 0;
+   HWithR 1 (str "orchard"); HWithR 1 (str "chamber")].
+
+Example ex_history_views :
+  map string_of (views (h_run toy (fun n => n) st0 demo_prog)) =
+  [str "juliet@example.com/balcony"; str "juliet@example.com";
+   str "juliet@example.com/orchard"; str "juliet@example.com/chamber"].
+Proof. vm_compute. reflexivity. Qed.
+
+Example ex_bare_shares_the_array :
+  let st := h_run toy (fun n => n) st0 demo_prog in
+  s_arr (h_data (hreg st 1)) = s_arr (h_data (hreg st 0)) /\
+  s_cap (h_data (hreg st 1)) = 24 /\ s_len (h_data (hreg st 1)) = 17.
+Proof. vm_compute. repeat split. Qed.
+
+Example ex_history_clean :
+  clean_from [] demo_prog (st_errs (h_run toy (fun n => n) st0 demo_prog)) = [true; true; true; true].
+Proof. vm_compute. reflexivity. Qed.
+
+(* the heap layer is able to express the defect: WithResource as in the seeded
+   change (append straight onto the bare slice when the receiver is bare)
+   overwrites the resourcepart of the value the bare one was taken from *)
+Definition h_with_resource_inplace (X : ext) (slack : nat -> nat) (h : heap) (j : hjid) (r : bytes)
+  : heap * (hjid * jerr) :=
+  let b := h_bare j in
+  if negb (s_len (h_data j) =? s_len (h_data b)) then h_with_resource X slack h j r
+  else if is_nil r then (h, (b, ENone))
+  else match x_opaque X r with
+       | None => (h, (hzero, EPrecis))
+       | Some r' => let '(h2, data2) := sl_append slack h (h_data b) r' in
+                    (h2, (mkh data2 (h_ll j) (h_dl j), resource_checks r'))
+       end.
+
+Example ex_inplace_design_breaks_independence :
+  let st := h_run toy (fun n => n) st0 [HNew (str "juliet") (str "example.com") (str "balcony"); HBare 0] in
+  let '(h', _) := h_with_resource_inplace toy (fun n => n) (st_heap st) (hreg st 1) (str "orchard") in
+  string_of (view (st_heap st) (hreg st 0)) = str "juliet@example.com/balcony" /\
+  string_of (view h' (hreg st 0)) = str "juliet@example.com/orchard" /\
+  ~ pres (st_heap st) h'.
+Proof.
+  vm_compute. split; [reflexivity | split; [reflexivity|]].
+  intros [_ P]. specialize (P 0 (le_n 1)). discriminate P.
 Qed.
